@@ -3,7 +3,7 @@ import AcraModel.Censor.Session
 import AcraModel.Censor.Match
 import AcraModel.Censor.Generalise
 import AcraModel.Censor.MatchTyping
-import AcraModel.Censor.MatchIdent
+import AcraModel.Censor.MatchWalk
 /-! Driver ops for C05 (acra-censor): the very definitions `Props/C05.lean` is about. -/
 namespace Driver.C05
 open AcraModel AcraModel.Censor Generated.CensorTable
